@@ -2,6 +2,7 @@ package chaingen
 
 import (
 	"fmt"
+	"math/big"
 	"math/rand"
 	"regexp"
 	"sort"
@@ -313,6 +314,9 @@ func (r *Run) step(n uint64, mons []Monitor) bool {
 		r.C.Count("blocks_full", 1)
 	}
 	r.countModuleLogs(res)
+	if !r.checkBlockhashLogs(b, res) {
+		return false
+	}
 	if dbErr := res.State.Error(); dbErr != nil {
 		class := "builder-state-db-error:" + Normalise(dbErr.Error())
 		msg := fmt.Sprintf("block %d: the builder's post state carries a database error: %v", n, dbErr)
@@ -349,6 +353,35 @@ func (r *Run) step(n uint64, mons []Monitor) bool {
 	for _, m := range mons {
 		if !m.Imported(r, b) || r.stopped {
 			return false
+		}
+	}
+	return true
+}
+
+// checkBlockhashLogs: what the blockhash contract saw must be the hashes of THIS chain's ancestors
+// (independent of whatever else this process executed before: other chains, other branches).
+func (r *Run) checkBlockhashLogs(b *BlockCtx, res *build.Result) bool {
+	topic := common.BigToHash(big.NewInt(0xbb))
+	n := res.Block.NumberU64()
+	for _, rc := range res.TxReceipts {
+		for _, l := range rc.Logs {
+			if len(l.Topics) != 1 || l.Topics[0] != topic || len(l.Data) != 32*len(BlockhashDepths) {
+				continue
+			}
+			for i, d := range BlockhashDepths {
+				var want common.Hash
+				if d <= 256 && d <= n {
+					if h := r.A.Chain.GetHeaderByNumber(n - d); h != nil {
+						want = h.Hash()
+					}
+				}
+				got := common.BytesToHash(l.Data[32*i : 32*i+32])
+				r.C.Count("blockhash_results_checked", 1)
+				if got != want {
+					r.Violation("blockhash-not-the-ancestor-hash", fmt.Sprintf("block %d: BLOCKHASH(number-%d) returned %x, the canonical ancestor %d of this chain is %x", n, d, got[:6], int64(n)-int64(d), want[:6]), r.Witness(b, nil))
+					return false
+				}
+			}
 		}
 	}
 	return true
